@@ -195,7 +195,8 @@ func drawUC(t *rapid.T, H uint64, sat bool) Node {
 	for i := 0; i < k; i++ {
 		switch c := rapid.IntRange(0, 9).Draw(t, "keyKind"); {
 		case c < 6:
-			n.Keys = append(n.Keys, UKey{A: "ed", I: rapid.IntRange(0, 3).Draw(t, "key")})
+			n.Keys = append(n.Keys, UKey{A: "ed", I: rapid.IntRange(0, 3).Draw(t, "key"),
+				L: rapid.SampledFrom([]int{0, 0, 0, 0, 0, 0, 0, 0, -1, 1, 31}).Draw(t, "edKeyLen")}) // mostly well-formed, sometimes empty / cut
 		case c < 9:
 			n.Keys = append(n.Keys, UKey{A: rapid.SampledFrom(unknownAlgs).Draw(t, "alg"), I: rapid.IntRange(0, 3).Draw(t, "ukey"),
 				L: rapid.SampledFrom([]int{0, 1, 31, 32, 33, 64, 100}).Draw(t, "ukeyLen")})
